@@ -25,14 +25,17 @@ func h(s string) string { return vh.Hex([]byte(s)) }
 // ---- tree representation shared by gen / exec
 
 type node struct {
-	kind    byte // 'f', 'l', 'd'
-	name    string
-	mode    uint32
-	hasTime bool
-	secs    int64
-	nsecs   int64
-	data    string // content / target
-	kids    []*node
+	kind     byte // 'f', 'l', 'd'
+	name     string
+	mode     uint32
+	hasTime  bool
+	secs     int64
+	nsecs    int64
+	data     string // content / target
+	abs      string // AbsPath() of a file
+	statName string
+	statDir  bool
+	kids     []*node
 }
 
 func (n *node) mtimeTok() string {
@@ -45,7 +48,7 @@ func (n *node) mtimeTok() string {
 func (n *node) tokens(out *[]string) {
 	switch n.kind {
 	case 'f':
-		*out = append(*out, "f", h(n.name), strconv.FormatUint(uint64(n.mode), 10), n.mtimeTok(), h(n.data))
+		*out = append(*out, "f", h(n.name), strconv.FormatUint(uint64(n.mode), 10), n.mtimeTok(), h(n.abs), h(n.data))
 	case 'l':
 		*out = append(*out, "l", h(n.name), n.mtimeTok(), h(n.data))
 	case 'd':
@@ -72,7 +75,7 @@ func (n *node) annot(out *[]string, strip bool) {
 	}
 	switch n.kind {
 	case 'f':
-		*out = append(*out, "type:f", "name:"+h(n.name), "mode:"+mode, "mtime:"+mt, "content:"+h(n.data))
+		*out = append(*out, "type:f", "name:"+h(n.name), "mode:"+mode, "mtime:"+mt, "abspath:"+h(n.abs), "content:"+h(n.data))
 	case 'l':
 		*out = append(*out, "type:l", "name:"+h(n.name), "mtime:"+mt, "content:"+h(n.data))
 	case 'd':
@@ -112,8 +115,9 @@ func parseNode(ts []string) (*node, []string) {
 		m, _ := strconv.ParseUint(ts[2], 10, 32)
 		n.mode = uint32(m)
 		parseMt(n, ts[3])
-		n.data = string(vh.UnHex(ts[4]))
-		return n, ts[5:]
+		n.abs = string(vh.UnHex(ts[4]))
+		n.data = string(vh.UnHex(ts[5]))
+		return n, ts[6:]
 	case 'l':
 		parseMt(n, ts[2])
 		n.data = string(vh.UnHex(ts[3]))
@@ -188,9 +192,17 @@ func buildSalt(kids []*node, st os.FileInfo, salt int) files.Directory {
 		var nd files.Node
 		switch k.kind {
 		case 'f':
-			if salt >= 0 {
-				kind := (salt + 3*i + len(k.name) + len(k.data)) % 5
-				nd = files.NewReaderStatFile(readerFor(kind, []byte(k.data)), k.statOrNil())
+			if salt >= 0 || k.abs != "" {
+				kind := 0
+				if salt >= 0 {
+					kind = (salt + 3*i + len(k.name) + len(k.data)) % 5
+				}
+				if k.abs != "" {
+					// a file with a known absolute path (AbsPath() travels in the abspath-encoded header)
+					nd, _ = files.NewReaderPathFile(k.abs, io.NopCloser(readerFor(kind, []byte(k.data))), k.statOrNil())
+				} else {
+					nd = files.NewReaderStatFile(readerFor(kind, []byte(k.data)), k.statOrNil())
+				}
 			} else if s := k.statOrNil(); s != nil {
 				nd = files.NewBytesStatFile([]byte(k.data), s)
 			} else {
@@ -247,6 +259,13 @@ func dump(d files.Directory, depth int) ([]*node, error) {
 			n.kids = kids
 		case files.File:
 			n.kind, n.mode = 'f', uint32(f.Mode())
+			if fi, ok := nd.(files.FileInfo); ok {
+				n.abs = fi.AbsPath()
+				if st := fi.Stat(); st != nil {
+					n.statName, n.statDir = st.Name(), st.IsDir()
+					_ = st.Sys()
+				}
+			}
 			b, err := io.ReadAll(f)
 			if err != nil {
 				return nil, err
@@ -328,6 +347,12 @@ func randKids(r *vh.Rand, depth, maxDepth int) []*node {
 		default:
 			k.kind = 'f'
 			randMeta(r, k)
+			if r.Chance(1, 3) {
+				k.abs = "/" + vh.Pick(r, nameFrags)
+				for j, jj := 0, r.Intn(3); j < jj; j++ {
+					k.abs += "/" + vh.Pick(r, nameFrags)
+				}
+			}
 			k.data = string(r.Bytes(r.Intn(12)))
 			if r.Chance(1, 8) {
 				k.data = vh.Pick(r, []string{"", "\r\n--", "--boundary\r\n", "line1\nline2\r\n"})
@@ -345,7 +370,9 @@ func randKids(r *vh.Rand, depth, maxDepth int) []*node {
 var craftedForm = []string{"file", "file?mtime-nsecs=5", "file?mode=abc", "file?mtime=x", "file?mode=0644;mtime=1", "file?%zz=1",
 	"file?mode=0755", "file?mtime=7", "file?mtime=7&mtime-nsecs=999999999", "file?mode=0644&mode=0600", "file?mode=08", "file?mode=040000000000",
 	"file?mtime=-3", "file?mtime=+3", "file?&&mode=1", "file?mode", "file?mode=", "other?mode=0644", "?mode=0644", "file?mtime=1&mtime-nsecs=1000000001",
-	"file?mtime=1&mtime-nsecs=-1", "file?mtime=-62135596800", "file?mtime=9223372036854775808", "file?mode=0644&mtime=%31"}
+	"file?mtime=1&mtime-nsecs=-1", "file?mtime=1&mtime-nsecs=9223372036854775808", "file?mtime=1&mtime-nsecs=-9223372036854775809",
+	"file?mtime=1&mtime-nsecs=99999999999999999999999", "file?mtime=1&mtime-nsecs=+5", "file?mtime=1&mtime-nsecs=abc", "file?mtime=1&mtime-nsecs=", "file?mtime=1&mtime-nsecs=-",
+	"file?mtime=0&mtime-nsecs=9223372036854775807", "file?mtime=-5&mtime-nsecs=-9223372036854775808", "file?mtime=-62135596800", "file?mtime=9223372036854775808", "file?mode=0644&mtime=%31"}
 var craftedFile = []string{"a", "a/b", "a/b/c", "a%2Fb", "%zz", "a+b", "a/../b", "/a", "a//b", "", ".", "..", "a/", "b", "a/c", "ab", "a%20b", "d/e/f/g"}
 
 func randParts(r *vh.Rand) []string {
@@ -458,7 +485,7 @@ func exec(c vh.Case, o *vh.Out) {
 				if disp == "form-data" {
 					isForm = 1
 				}
-				ps = append(ps, fmt.Sprintf("%d|%s|%s|%s|%s", isForm, h(p.FormName()), h(params["filename"]), ctypeOf(p.Header), h(string(body))))
+				ps = append(ps, fmt.Sprintf("%d|%s|%s|%s|%s|%s", isForm, h(p.FormName()), h(params["filename"]), ctypeOf(p.Header), h(string(body)), h(p.Header.Get("abspath-encoded"))))
 			}
 			o.Kind("ser")
 			if len(ps) == 0 {
@@ -529,6 +556,17 @@ func exec(c vh.Case, o *vh.Out) {
 						break
 					}
 				}
+				// the stat handed out with a parsed file names the entry
+				var chk func(ns []*node)
+				chk = func(ns []*node) {
+					for _, k := range ns {
+						if k.kind == 'f' && k.statName != "" && k.statName != k.name {
+							o.Fail("stat-name", "entry %q has Stat().Name() %q", k.name, k.statName)
+						}
+						chk(k.kids)
+					}
+				}
+				chk(got)
 				if len(want) > 5 {
 					o.Nontrivial()
 				}
